@@ -1251,8 +1251,8 @@ def main(outfile):
 
     import py2lean_fsmtables                                     # separate module: FSM tables, __init__, _run_cb, _send_events, _event (C03)
     py2lean_fsmtables.main_fsmtables(os.path.join(os.path.dirname(outfile), 'TranslatedFsmTables.lean'), write_if_changed)
-    import py2lean_ctor                                          # separate module: constructors, name rules, circuit registry (C14)
-    py2lean_ctor.main_ctor(os.path.join(os.path.dirname(outfile), 'TranslatedCtor.lean'), write_if_changed)
+    import py2lean_blkctor                                          # separate module: constructors, name rules, circuit registry (C14)
+    py2lean_blkctor.main_blkctor(os.path.join(os.path.dirname(outfile), 'TranslatedBlkCtor.lean'), write_if_changed)
 
 if __name__ == '__main__':
     main(sys.argv[1])
